@@ -33,3 +33,6 @@ if os.path.exists('/verif/seeded/MATRIX.json'):
 old.update(res)
 json.dump(old, open('/verif/seeded/MATRIX.json', 'w'), indent=1, sort_keys=True)
 # restore evidence files of the unchanged tree for the touched properties is the caller's job (re-run the checks)
+# the generated Lean files describe the last tree a check ran on: bring them back to /repo's
+subprocess.run(["/venv/bin/python", "-c", "import sys; sys.path.insert(0, '/verif'); from harness import translate; [translate.run(p, {}) for p in ('C09',)]"],
+               env=dict(os.environ, PYTHONPATH="/repo", PYTTB_REPO="/repo"), cwd="/verif")
